@@ -18,3 +18,72 @@ def mk_term(spec: dict, engine=None):
         t = fl.Function(name, spec["formula"], variables=dict(spec.get("vars") or {}), engine=engine, load=False)
         return t
     return getattr(fl, cls)(name, *[float(v) for v in p], h)
+
+
+def mk_norm(name, kind):
+    if name is None:
+        return None
+    fm = fl.settings.factory_manager
+    return (fm.tnorm if kind == "t" else fm.snorm).construct(name)
+
+
+def mk_defuzzifier(d):
+    if d is None:
+        return None
+    if "resolution" in d:
+        return getattr(fl, d["cls"])(int(d["resolution"]))
+    return getattr(fl, d["cls"])(d.get("type", "Automatic"))
+
+
+def mk_activation(a):
+    if a is None:
+        return None
+    cls = a["cls"]
+    if cls in ("General", "Proportional"):
+        return getattr(fl, cls)()
+    if cls in ("First", "Last"):
+        return getattr(fl, cls)(int(a["rules"]), float(a["threshold"]))
+    if cls in ("Highest", "Lowest"):
+        return getattr(fl, cls)(int(a["rules"]))
+    if cls == "Threshold":
+        return fl.Threshold(a["comparator"], float(a["threshold"]))
+    raise KeyError(cls)
+
+
+def mk_input(v):
+    return fl.InputVariable(name=v["name"], description=v.get("description", ""), enabled=v.get("enabled", True),
+                            minimum=float(v["min"]), maximum=float(v["max"]), lock_range=v.get("lock_range", False),
+                            terms=[mk_term(t) for t in v["terms"]])
+
+
+def mk_output(v):
+    return fl.OutputVariable(name=v["name"], description=v.get("description", ""), enabled=v.get("enabled", True),
+                             minimum=float(v["min"]), maximum=float(v["max"]), lock_range=v.get("lock_range", False),
+                             lock_previous=v.get("lock_previous", False), default_value=float(v.get("default", fl.nan)),
+                             aggregation=mk_norm(v.get("aggregation"), "s"),
+                             defuzzifier=mk_defuzzifier(v.get("defuzzifier")),
+                             terms=[mk_term(t) for t in v["terms"]])
+
+
+def mk_rule(r, decimals=3):
+    from . import gen
+
+    rule = fl.Rule.create(r["text"] if "text" in r else gen.rule_text(r, decimals))
+    if not r.get("enabled", True):
+        rule.enabled = False
+    return rule
+
+
+def mk_block(b, decimals=3):
+    return fl.RuleBlock(name=b["name"], description=b.get("description", ""), enabled=b.get("enabled", True),
+                        conjunction=mk_norm(b.get("conjunction"), "t"), disjunction=mk_norm(b.get("disjunction"), "s"),
+                        implication=mk_norm(b.get("implication"), "t"), activation=mk_activation(b.get("activation")),
+                        rules=[mk_rule(r, decimals) for r in b["rules"]])
+
+
+def mk_engine(spec, decimals=3):
+    """Build through the public constructors; Engine(...) loads the rules and updates term references."""
+    return fl.Engine(name=spec.get("name", "E"), description=spec.get("description", ""),
+                     input_variables=[mk_input(v) for v in spec["inputs"]],
+                     output_variables=[mk_output(v) for v in spec["outputs"]],
+                     rule_blocks=[mk_block(b, decimals) for b in spec["blocks"]])
